@@ -34,6 +34,10 @@ func BuildGroup(prime *big.Int) (Group, bool) {
 	if !result.Order.ProbablyPrime(80) {
 		return result, false
 	}
+	if result.Order.Cmp(big.NewInt(3)) < 0 {
+		// (no two different generators below: the subgroup of squares has a single element besides 1)
+		return result, false
+	}
 
 	// The generators depend on the prime. (The prime is chosen by whoever makes the proof: for
 	// generators that are fixed integers reduced modulo it, a prime dividing, e.g., a^x - b^y for
